@@ -683,6 +683,179 @@ fn record(spec: &Spec, o: Out, ev: &mut Evidence, violations: &mut Vec<Violation
 	}
 }
 
+// ---------------------------------------------------------------------------------------------------------------
+// Back-pressure at the moment of the stop: a WebSocket peer that does not read, a message buffer of one, a small pipe.
+// Calls are executing, answers are queued behind the blocked write, the reader itself may be waiting for room to turn
+// down an oversized message, a subscribe call is about to be rejected by its handler - then stop(). Afterwards the peer
+// reads again. Every call that started gets its answer before the connection is closed, and stopped() resolves only then.
+
+fn bp_module(sh: Arc<Shared>) -> RpcModule<Arc<Shared>> {
+	let mut m = module(sh);
+	m.register_method("big", |p, sh, _| {
+		let tag: String = p.one().unwrap_or_default();
+		sh.started.lock().unwrap().push((tag.clone(), ticket()));
+		sh.finished.lock().unwrap().push((tag.clone(), ticket()));
+		format!("{tag}:{}", "z".repeat(500))
+	})
+	.unwrap();
+	// a subscription whose handler waits for its gate and then rejects the call
+	m.register_subscription("sub_rej", "notif_rej", "unsub_rej", |p, pending, sh, _| async move {
+		let tag: String = p.one().unwrap_or_default();
+		sh.started.lock().unwrap().push((tag.clone(), ticket()));
+		sh.gate(&tag).notified().await;
+		sh.finished.lock().unwrap().push((tag.clone(), ticket()));
+		pending.reject(jsonrpsee_types::ErrorObjectOwned::owned(1234, "rejected after the gate", Some(tag))).await;
+		Ok(())
+	})
+	.unwrap();
+	m
+}
+
+#[derive(Default)]
+struct BpOut {
+	violations: Vec<(String, String)>,
+	started: usize,
+	answered: usize,
+	history: Vec<String>,
+}
+
+async fn backpressure_stop_case(seed: u64) -> BpOut {
+	let mut out = BpOut::default();
+	let mut r = Rng::new(seed);
+	let sh = Arc::new(Shared::default());
+	let cfg = ServerConfig::builder().set_message_buffer_capacity(1).max_request_body_size(1000).max_connections(10).build();
+	let mut srv = jrv::memsrv::MemServer::new(cfg, bp_module(sh.clone()));
+	srv.duplex_capacity = 1500 + r.usize(1500);
+	let Ok((mut ws, closed)) = srv.ws_session().await else { return out };
+	let handle = srv.handle.clone();
+	drop(srv);
+	let session_closed = Arc::new(Mutex::new(None::<u64>));
+	{
+		let sc = session_closed.clone();
+		tokio::spawn(async move {
+			closed.await;
+			*sc.lock().unwrap() = Some(ticket());
+		});
+	}
+	macro_rules! bad {
+		($sig:expr, $($arg:tt)*) => { out.violations.push(($sig.to_string(), format!($($arg)*))) };
+	}
+	let settle = |ms: u64| tokio::time::sleep(Duration::from_millis(ms));
+	ws.set_reading(false);
+	settle(2).await;
+	let mut id = 0u64;
+	let mut expect: Vec<(u64, String, &'static str)> = Vec::new();
+	// calls that stay in their handlers
+	let n_work = 1 + r.usize(3);
+	for k in 0..n_work {
+		id += 1;
+		let tag = format!("w{k}");
+		let _ = ws.send_text(&json!({"jsonrpc": "2.0", "id": id, "method": "work", "params": [tag]}).to_string()).await;
+		expect.push((id, tag, "work"));
+	}
+	// a subscribe call whose handler will reject it after the stop
+	let with_reject = r.chance(2, 3);
+	if with_reject {
+		id += 1;
+		let _ = ws.send_text(&json!({"jsonrpc": "2.0", "id": id, "method": "sub_rej", "params": ["rej"]}).to_string()).await;
+		expect.push((id, "rej".into(), "sub_rej"));
+	}
+	// answers that fill the pipe and the one-slot buffer
+	let n_big = 4 + r.usize(6);
+	for k in 0..n_big {
+		id += 1;
+		let tag = format!("b{k}");
+		let _ = ws.send_text(&json!({"jsonrpc": "2.0", "id": id, "method": "big", "params": [tag]}).to_string()).await;
+		expect.push((id, tag, "big"));
+	}
+	settle(3).await;
+	// the reader has to turn down an oversized message while there is no room for its answer
+	let with_oversized = r.chance(2, 3);
+	if with_oversized {
+		let _ = ws.send_text(&json!({"jsonrpc": "2.0", "id": 9000, "method": "quick", "params": ["o".repeat(1100)]}).to_string()).await;
+		settle(2).await;
+	}
+	let started_before: Vec<String> = sh.started.lock().unwrap().iter().map(|(t, _)| t.clone()).collect();
+	out.history.push(format!("before stop: {} handlers started, oversized message sent: {with_oversized}, subscribe-to-be-rejected: {with_reject}", started_before.len()));
+	let stop_ticket = ticket();
+	let _ = handle.stop();
+	let stopped_at = Arc::new(Mutex::new(None::<u64>));
+	{
+		let (h, st) = (handle.clone(), stopped_at.clone());
+		tokio::spawn(async move {
+			h.stopped().await;
+			*st.lock().unwrap() = Some(ticket());
+		});
+	}
+	settle(1 + r.below(4)).await;
+	// the handlers finish, in a seeded order, around the moment the peer starts reading again
+	let mut tags: Vec<String> = expect.iter().filter(|e| e.2 != "big").map(|e| e.1.clone()).collect();
+	r.shuffle(&mut tags);
+	let read_first = r.bool();
+	if read_first {
+		ws.set_reading(true);
+	}
+	for t in &tags {
+		sh.release(t);
+		if r.bool() {
+			settle(1).await;
+		}
+	}
+	if !read_first {
+		settle(r.below(3)).await;
+		ws.set_reading(true);
+	}
+	// read to the end
+	let mut frames: Vec<Value> = Vec::new();
+	loop {
+		match ws.recv(Duration::from_secs(30)).await {
+			jrv::memsrv::Recv::Frame(f) => {
+				if let Some(v) = f.json() {
+					frames.push(v);
+				}
+			}
+			jrv::memsrv::Recv::Closed(_) => break,
+			jrv::memsrv::Recv::Idle => {
+				bad!("connection-not-closed-after-stop/backpressure", "30 idle virtual seconds after stop() and the release of every handler the connection is still open");
+				break;
+			}
+		}
+	}
+	settle(50).await;
+	let started: Vec<String> = sh.started.lock().unwrap().iter().map(|(t, _)| t.clone()).collect();
+	out.started = started.len();
+	for (cid, tag, kind) in &expect {
+		if !started.contains(tag) {
+			continue;
+		}
+		let rp = frames.iter().find(|v| v["id"] == json!(cid));
+		match rp {
+			Some(v) => {
+				out.answered += 1;
+				let ok = match *kind {
+					"work" => v["result"] == json!(tag),
+					"big" => v["result"].as_str().is_some_and(|s| s.starts_with(&format!("{tag}:"))),
+					_ => v["error"]["code"] == json!(1234),
+				};
+				if !ok {
+					bad!(format!("started-call-answered-wrongly/backpressure/{kind}"), "call {cid} ({tag}): {v}");
+				}
+			}
+			None => bad!(
+				format!("started-call-unanswered-at-stopped/backpressure/{kind}{}", if with_oversized { "+oversized-message-being-refused" } else { "" }),
+				"call {cid} ({kind} {tag}) was in its handler (or answered but unsent) when stop() came at ticket {stop_ticket}; the peer read everything until the connection was closed and never got its answer ({} frames, {} handlers started)",
+				frames.len(),
+				started.len()
+			),
+		}
+	}
+	if stopped_at.lock().unwrap().is_none() {
+		bad!("stopped-never-resolves/backpressure", "every handler returned and the peer read to the end, stopped() is still pending");
+	}
+	out.history.push(format!("{} frames read, session closed at {:?}, stopped at {:?}", frames.len(), session_closed.lock().unwrap(), stopped_at.lock().unwrap()));
+	out
+}
+
 fn main() {
 	let ctx = Ctx::from_env("C10", "exploration");
 	install_panic_capture(true);
@@ -702,9 +875,13 @@ fn main() {
 	ev.assume("TCP variant: stopped() not resolving within 30 s of real time makes that case inconclusive, never a violation");
 	let mut violations = Vec::new();
 	let replay = ctx.replay.is_some();
+	let mut replay_family: Option<String> = None;
+	let mut replay_seed: Option<u64> = None;
 	let seeds: Vec<u64> = if let Some(path) = &ctx.replay {
 		let w: Value = serde_json::from_str(&std::fs::read_to_string(path).expect("replay")).expect("json");
-		vec![w["witness"]["seed"].as_u64().expect("seed")]
+		replay_family = w["witness"]["family"].as_str().map(|s| s.to_string());
+		replay_seed = w["witness"]["seed"].as_u64();
+		if replay_family.is_some() { vec![] } else { vec![w["witness"]["seed"].as_u64().expect("seed")] }
 	} else {
 		(0..ctx.tier.pick(20_000u64, 1_000_000)).map(|i| Rng::fork(ctx.seed, i).next_u64()).collect()
 	};
@@ -736,6 +913,28 @@ fn main() {
 				p.message.clone(),
 				json!({"location": p.location, "backtrace": p.backtrace_head}),
 			));
+		}
+	}
+	if !replay || replay_family.as_deref() == Some("back-pressure at stop") {
+		let seeds: Vec<u64> = match (replay, replay_seed) {
+			(true, Some(s)) => vec![s],
+			_ => (0..ctx.tier.pick(400u64, 20_000)).map(|i| Rng::fork(ctx.seed, 70_000_000 + i).next_u64()).collect(),
+		};
+		let res = run_parallel(seeds, |_, s| (s, block_on_virtual(backpressure_stop_case(s))));
+		for (s, o) in res {
+			ev.eval();
+			ev.count("backpressure_stop_cases", 1);
+			ev.count("backpressure_stop_handlers_started", o.started as u64);
+			ev.count("backpressure_stop_answers_received", o.answered as u64);
+			if o.started > 0 {
+				ev.nontrivial(&("bp-stop", s));
+			}
+			if replay {
+				println!("history: {:?}\nviolations: {:?}", o.history, o.violations);
+			}
+			for (sig, d) in o.violations {
+				violations.push(Violation::new(sig, d, json!({"family": "back-pressure at stop", "seed": s, "history": o.history})));
+			}
 		}
 	}
 	// TCP variant (real time): the real `Server` with its accept loop, killed at the instant stopped() resolves
